@@ -31,6 +31,9 @@ func checkC01(w *World, r *Report, tier string) propMeta {
 	c01R4(w, r)
 	c01R5(w, r)
 	c01R7(w, r)
+	r.rule("C01.R8", "presence bits of a filter section select the same filter in the encoder and the parser (shared with C17.R1): a filter decoded into another slot prunes rows that an absent filter must let through", 3)
+	filterFlagTables(w, r, "C01.R8")
+	c03R6(w, r, "C01.R9")
 	c03R4(w, r) // entry sets never alias a pooled buffer: a necessary condition for the filters to contain what was written
 	return propMeta{
 		explanation: fmt.Sprintf("Six structural necessary conditions of 'no false negatives': (R1) one walker, one canonicaliser — pathWalker.walk is called only by indexing and by row verification, both read leaf text through leafTokenInput, neither reaches the reference enumerator, entry sets are written only by indexRow/addFieldToken/unionInto and every filter is built by buildSizedBloomFilter; (R2) the tokenisation siblings agree — both sides gate the fast path on isBasicWhitespaceLowerTokenizer of the same configured tokenizer, use the same forEachWord/appendFoldedWord pair, call the configured tokenizer on the same text otherwise, and use the same delimiter; (R3) prune ≥ row: for every small bloom tree (depth ≤ 2) and every truth assignment of its leaves the pruning verdict (evaluateBloomExpression with filters answering the assignment) is true whenever the row verdict (compileBloomExpression + evalMatcherNode) is, absent filters fail open, and the regex field guard is at least as permissive as the compiled regex matcher — %d cases by abstract interpretation; (R4) the regex guard is a field-existence test on the condition's own path; (R5) pruning points prune only on a negative filter verdict or a recorded error, and a filter section that is not in the chunk just read is an error, never a guess; (R6) = C18 (filters complete w.r.t. entry sets at every level) and C11.R1 (merge re-streams every row).", n),
@@ -704,6 +707,7 @@ func checkC03(w *World, r *Report, tier string) propMeta {
 	c03R2(w, r)
 	c03R3(w, r)
 	c03R4(w, r)
+	c03R6(w, r, "C03.R6")
 	c03R5(w, r)
 	return propMeta{
 		explanation: "Independence of returned rows: (R1) materializeRow parses a copying string(rowBytes) conversion of its argument, and (C02.R1) every delivered row is materializeRow of the scanned bytes; (R2) package unsafe is referenced only inside unsafeString, whose callers are exactly indexRow and matchRowBytes, and matchRowBytes/match return only a bool; (R3) typestate on pooled scan buffers: after putScanBuffer(x) (or a direct call of a release closure) no instruction reachable in the function uses x; in processDataBlock the row-data release is deferred before the batch flush is deferred (so the flush runs first) and is never called directly; (R4) readPooledBlockRowData is called only from processDataBlock (the merge path uses the allocating reader) and parseFilterSection decodes filters with ReadFrom into fresh objects.",
@@ -1187,5 +1191,137 @@ func checkC27(w *World, r *Report, tier string) propMeta {
 	return propMeta{
 		explanation: "Silence by default as who-may-reference rules: no function of the package references os.Stdout/os.Stderr, fmt.Print*, print/println, package log or slog's package-level logging functions (a positive control checks the matcher on every run); the engine's logger field is written only in the constructor, from config.Logger on the non-nil edge and slog.New(slog.DiscardHandler) on the nil edge; every slog call in the package goes through that field. The thorough tier repeats the scan over every function reachable from the package in the VTA call graph of the dependencies.",
 		notDecided:  "Runtime panics (which print to stderr by definition) and output of third-party code reached only under build-time debug constants.",
+	}
+}
+
+// aliasing: may a byte-slice value share memory with another value?
+type aliasing struct {
+	w    *World
+	memo map[string]int
+}
+
+// derivesFrom: v may be (a view of) x — through slicing, phis, type changes
+// and calls that may return one of their arguments.
+func (a *aliasing) derivesFrom(v, x ssa.Value, seen map[ssa.Value]bool) bool {
+	if v == nil || seen[v] {
+		return false
+	}
+	seen[v] = true
+	if v == x {
+		return true
+	}
+	switch t := v.(type) {
+	case *ssa.Slice:
+		return a.derivesFrom(t.X, x, seen)
+	case *ssa.Phi:
+		for _, e := range t.Edges {
+			if a.derivesFrom(e, x, seen) {
+				return true
+			}
+		}
+	case *ssa.ChangeType:
+		return a.derivesFrom(t.X, x, seen)
+	case *ssa.Extract:
+		if c, ok := t.Tuple.(*ssa.Call); ok {
+			return a.callMayReturn(c, x, t.Index, seen)
+		}
+	case *ssa.Call:
+		return a.callMayReturn(t, x, 0, seen)
+	case *ssa.UnOp:
+		if al, ok := t.X.(*ssa.Alloc); ok {
+			for _, ref := range *al.Referrers() {
+				if st, ok := ref.(*ssa.Store); ok && st.Addr == ssa.Value(al) && a.derivesFrom(st.Val, x, seen) {
+					return true
+				}
+			}
+		}
+	}
+	return false
+}
+
+func (a *aliasing) callMayReturn(c *ssa.Call, x ssa.Value, result int, seen map[ssa.Value]bool) bool {
+	g := a.w.staticCallee(&c.Call)
+	for i, arg := range c.Call.Args {
+		if !a.derivesFrom(arg, x, seen) {
+			continue
+		}
+		if g == nil || g.Blocks == nil {
+			// unknown callee taking the buffer and returning bytes: assume it may return it
+			if b, isB := c.Call.Value.(*ssa.Builtin); isB && b.Name() != "append" {
+				continue
+			}
+			return true
+		}
+		if a.mayReturnParam(g, i, result) {
+			return true
+		}
+	}
+	return false
+}
+
+// mayReturnParam: some return of g yields, as result #result, a view of parameter i.
+func (a *aliasing) mayReturnParam(g *ssa.Function, i, result int) bool {
+	key := fmt.Sprintf("%p|%d|%d", g, i, result)
+	switch a.memo[key] {
+	case 1:
+		return true
+	case 2:
+		return false
+	}
+	a.memo[key] = 2
+	if i >= len(g.Params) {
+		return false
+	}
+	for _, b := range g.Blocks {
+		ret, ok := b.Instrs[len(b.Instrs)-1].(*ssa.Return)
+		if !ok || result >= len(ret.Results) {
+			continue
+		}
+		if a.derivesFrom(retOperand(ret, result), g.Params[i], map[ssa.Value]bool{}) {
+			a.memo[key] = 1
+			return true
+		}
+	}
+	return false
+}
+
+// c03R6: a buffer that goes back to the pool when the function returns is not
+// part of what the function returns.
+func c03R6(w *World, r *Report, rule string) {
+	r.rule(rule, "no pooled buffer handed out past its release: in every function that defers putScanBuffer(x), no returned byte slice or string can be a view of x (through slicing, phis, or callees that may return their argument — decodeBlockRowData returns its input for uncompressed blocks)", 1)
+	al := &aliasing{w: w, memo: map[string]int{}}
+	n := 0
+	for _, fn := range w.Funcs {
+		if !w.ours(fn) || fn.Blocks == nil {
+			continue
+		}
+		eachInstr(fn, func(in ssa.Instruction) {
+			d, ok := in.(*ssa.Defer)
+			if !ok || !w.isCallTo(&d.Call, "putScanBuffer") || len(d.Call.Args) == 0 {
+				return
+			}
+			n++
+			buf := d.Call.Args[0]
+			bad := ""
+			for _, b := range fn.Blocks {
+				ret, ok := b.Instrs[len(b.Instrs)-1].(*ssa.Return)
+				if !ok {
+					continue
+				}
+				for i := range ret.Results {
+					tn := w.typeName(ret.Results[i].Type())
+					if tn != "[]byte" && tn != "string" {
+						continue
+					}
+					if al.derivesFrom(retOperand(ret, i), buf, map[ssa.Value]bool{}) {
+						bad = w.instrPos(ret)
+					}
+				}
+			}
+			r.check(bad == "", rule, baseName(w.name(fn))+":deferred-release-not-returned", w.instrPos(d), "nothing returned is a view of the released buffer", baseName(w.name(fn))+" can return (at "+bad+") bytes that are a view of the buffer its deferred putScanBuffer hands back to the pool: the caller keeps rows that the next pooled read overwrites")
+		})
+	}
+	if n == 0 {
+		r.undecided(rule, "sites", "-", "no deferred putScanBuffer found (ReadDataBlockBloomFilters' expected)")
 	}
 }
